@@ -17,7 +17,7 @@ from common import *
 IMPORTS = "From CV Require Import Base.Cmp Model.C20_Diff.\nFrom Coq Require Import QArith."
 RULE = ("every (order, BC, n) for 1-d n<=12 quick/<=40 thorough and 2-d n x n <= 5x5 quick/<=10x10 thorough, BC in "
         "zero/periodic/neumann/backward/none/unknown, orders 1,2 (0..3 for the precision), both num_nodes forms, dyadic and "
-        "non-dyadic dx, malformed constructor calls; integer vectors applied; GMRF (1-d n<=10/24, 2-d N<=4/6) x BC x order 0..2; "
+        "non-dyadic dx, malformed constructor calls; integer vectors applied; GMRF (1-d n<=10/24, 2-d N<=4 quick, <=5 thorough (6 for zero BC)) x BC x order 0..2; "
         "GMRF with config.MAX_DIM_INV lowered (large-dimension log-determinant branch); negative dx; LMRF/CMRF x BC x scalar/vector location. distinct = distinct (operation, configuration, vectors); trivial = "
         "refused configurations and BC 'none' (identity)")
 
@@ -594,7 +594,9 @@ def run(ctx):
                 dims1 = [1, 2, 5]
             for dim in dims1:
                 cases += gmrf_cases(1, dim, bc, order, rng, nvec=2)
-            Ns = list(range(1, ctx.n(4, 6) + 1))
+            # 2-d: the exact pseudo-determinant (sum of dim principal minors over Q) costs ~1 min per case at 6x6 and
+            # minutes at order 2, so periodic / neumann stop at 5x5; zero BC (one determinant) goes to 6x6
+            Ns = list(range(1, ctx.n(4, 6 if bc == "zero" else 5) + 1))
             if order == 3 or bc not in ("zero", "periodic", "neumann"):
                 Ns = [2]
             for N in Ns:
